@@ -584,6 +584,114 @@ def c18(prop, tier, seed):
 PLANS["C18"] = c18
 
 
+def build_tools():
+    tdir = os.path.join(driver.WORK, "tools-target")
+    os.makedirs(tdir, exist_ok=True)
+    from oracles import c20
+    cmd = ["cargo", "build", "--offline", "--release"]
+    for t in c20.TOOLS:
+        cmd += ["-p", t]
+    env = dict(driver.ENV, CARGO_TARGET_DIR=tdir)
+    t = time.time()
+    p = subprocess.run(cmd, cwd=driver.REPO, env=env, stdout=subprocess.PIPE, stderr=subprocess.STDOUT, text=True)
+    if p.returncode != 0:
+        log(p.stdout[-4000:])
+        raise Infra("BUILD-FAILED: the bundled tools do not build from the workspace")
+    log(f"[build] tools ok in {time.time()-t:.1f}s")
+    return os.path.join(tdir, "release")
+
+
+def c20(prop, tier, seed):
+    import random
+    from concurrent.futures import ThreadPoolExecutor
+    from oracles import c20 as orc
+    from e57ref import produce
+    t0 = time.time()
+    wd = workdir(prop, tier)
+    res = Result()
+    cover = {}
+
+    def add(sig_tail, detail, case):
+        sig = f"{prop}/{sig_tail}"
+        res.sigcounts[sig] = res.sigcounts.get(sig, 0) + 1
+        if sum(1 for x in res.viols if x["sig"] == sig) < 3:
+            res.viols.append({"prop": prop, "sig": sig, "detail": detail, "workload": "tools", "seed": seed, "case": case, "args": None})
+
+    try:
+        tools = build_tools()
+        b = build("checked")
+        # ---- XYZ -> E57 -> XYZ
+        nxyz = 120 if tier == "quick" else 4000
+        sizes = [0, 1, 2, 3, 50, 256, 300, 1000]
+        jobs = []
+        for i in range(nxyz):
+            n = sizes[i % len(sizes)] if i % 37 else (20000 if tier == "thorough" else 5000)
+            jobs.append((i, n, (i % len(sizes)) == 5))
+        colours = set()
+        lines = 0
+        with ThreadPoolExecutor(NCPU) as ex:
+            for (i, n, sweep), (problems, st) in zip(jobs, ex.map(lambda j: orc.xyz_roundtrip(tools, wd, j[0], seed, j[1], j[2]), jobs)):
+                lines += st.get("lines", 0)
+                colours |= st.get("colours", set())
+                for rule, text in problems:
+                    add(rule, f"xyz file #{i} ({n} lines): {text}", i)
+        res.stats["xyz_runs"] = len(jobs)
+        res.stats["xyz_points_compared"] = lines
+        cover["colour_values_covered"] = len(colours)
+        # ---- E57 inputs: independent encoder + crate writer, intact and with one damaged page
+        nfiles = 60 if tier == "quick" else 1500
+        lst, metas = produce.produce(os.path.join(wd, "enc"), seed, nfiles)
+        files = [m["file"] for m in metas]
+        wdir = os.path.join(wd, "wfiles")
+        os.makedirs(wdir)
+        res.merge(run_shards(b, "roundtrip", ["--mode", "c02", "--filesdir", wdir], nfiles, 120, seed, tier, wd, "export", prop))
+        files += sorted(glob.glob(os.path.join(wdir, "*.e57")))
+        rr = random.Random(seed)
+        damaged = []
+        for f in files[::3]:
+            img = bytearray(open(f, "rb").read())
+            pg = rr.randrange(len(img) // 1024)
+            img[pg * 1024 + rr.randrange(1024)] ^= 1 << rr.randrange(8)
+            fd = f[:-4] + "_damaged.e57"
+            open(fd, "wb").write(img)
+            damaged.append(fd)
+        allf = files + damaged
+        lst2 = os.path.join(wd, "all.txt")
+        open(lst2, "w").write("\n".join(allf) + "\n")
+        r, obs = run_dump(b, lst2, wd, "dump", seed, tier, prop)
+        res.merge(r)
+
+        def one(f):
+            img = open(f, "rb").read()
+            out = []
+            out += orc.check_crc_tool(tools, f, img)
+            out += orc.extract_xml_tool(tools, f, img)
+            if f in obs:
+                out += orc.unpack_tool(tools, f, obs[f])
+            return f, out
+
+        with ThreadPoolExecutor(NCPU) as ex:
+            for f, problems in ex.map(one, allf):
+                kind = "damaged" if f.endswith("_damaged.e57") else ("encoder" if "/enc/" in f else "writer")
+                cover["e57_inputs:" + kind] = cover.get("e57_inputs:" + kind, 0) + 1
+                for rule, text in problems:
+                    add(rule, f"{kind} file {os.path.basename(f)}: {text}", 0)
+        res.stats["tool_runs"] = len(jobs) * 2 + len(allf) * 3
+        res.stats["e57_files"] = len(allf)
+        res.cover.update(cover)
+        res.samples = [{"xyz_file": j[0], "lines": j[1], "colour_sweep": j[2]} for j in jobs[:2]] + [{"e57_file": os.path.basename(f)} for f in allf[:2]]
+    finally:
+        cleanup(wd)
+    rule = ("the five tools are built from the workspace and run as child processes. XYZ files (0..20000 lines; single-space separated; coordinates = random finite f32 bit patterns, extremes, subnormals, +-0 printed with 9 significant digits; colours incl. a sweep over all 256 values; extra columns, leading space, blank and short lines) go through e57-from-xyz | e57-to-xyz and must come back numerically unchanged and in order; "
+            "E57 files from the independent encoder and from the crate's writer, intact and with one flipped bit: e57-check-crc's exit status must equal the verdict of the independent CRC, e57-extract-xml's stdout must equal the XML section located by the independent decoder, e57-unpack's metadata.xml / CSV values / image files must equal what the library reports (harness observation log); non-trivial = tool run judged; distinct = distinct input files")
+    assumptions = ["XYZ lines with fewer than six columns are skipped (documented); colour is columns 4-6", "check-crc is only run on files of whole-page size", "CSV numbers are compared numerically with the exact bit patterns (textual form is the tools' choice)"]
+    extra = {"xyz_points_compared": res.stats.get("xyz_points_compared", 0), "colour_values_covered": cover.get("colour_values_covered", 0), "tool_runs": res.stats.get("tool_runs", 0), "e57_inputs": {k[11:]: v for k, v in cover.items() if k.startswith("e57_inputs:")}}
+    return finish(prop, tier, seed, level(prop), res, rule, res.stats.get("xyz_runs", 0) + res.stats.get("e57_files", 0), res.stats.get("tool_runs", 0), assumptions, t0, extra)
+
+
+PLANS["C20"] = c20
+
+
 def run(prop, tier, seed):
     if prop not in PLANS:
         log(f"no check registered for {prop}")
